@@ -96,6 +96,13 @@ pub fn check(case: &Case, obs: &mut Obs) -> Result<(), Fail> {
                             continue;
                         };
                         wi.lock().unwrap().insert(i, m.id);
+                        if i >= c2.ops.len() {
+                            // the reuse probe: answered at once
+                            if let Some(tag) = m.req.response_tag() {
+                                wire.push(&RespMsg::new(m.id, Resp::result(tag, Res::ok(&tok(i, 0)))).encode());
+                            }
+                            continue;
+                        }
                         let op = c2.ops[i].clone();
                         let w2 = wire.clone();
                         tokio::spawn(async move {
@@ -205,6 +212,7 @@ pub fn check(case: &Case, obs: &mut Obs) -> Result<(), Fail> {
         };
         // reusability: position the counter just below each timed-out id and allocate
         let mut reuse = Vec::new();
+        let mut reuse_ops: Vec<(i32, i32, String)> = Vec::new();
         {
             let mut probe = conn.ldap.clone();
             for o in observed.iter().flatten() {
@@ -213,6 +221,15 @@ pub fn check(case: &Case, obs: &mut Obs) -> Result<(), Fail> {
                     let got = probe.verif_next_msgid();
                     reuse.push((o.id, got));
                     conn.msgmap.lock().unwrap().1.remove(&got);
+                    // ... and an operation that is handed the id again must work like any other
+                    conn.msgmap.lock().unwrap().0 = o.id - 1;
+                    let idx = c.ops.len() + reuse_ops.len();
+                    let r = tokio::time::timeout(Duration::from_secs(3600), probe.delete(&simops::marker(idx))).await;
+                    reuse_ops.push((o.id, probe.last_id(), match r {
+                        Err(_) => "hang".to_string(),
+                        Ok(Ok(res)) => if res.text == tok(idx, 0) { "ok".to_string() } else { format!("wrong-response:{}", res.text) },
+                        Ok(Err(e)) => err_kind(&e),
+                    }));
                 }
             }
         }
@@ -224,9 +241,9 @@ pub fn check(case: &Case, obs: &mut Obs) -> Result<(), Fail> {
         srv.abort();
         let _ = srv.await;
         let p = problems.lock().unwrap().clone();
-        (observed, in_use, reuse, ids, end, p)
+        (observed, in_use, reuse, ids, end, p, reuse_ops)
     });
-    let (observed, in_use, reuse, ids, end, problems) = match out {
+    let (observed, in_use, reuse, ids, end, problems, reuse_ops) = match out {
         SimResult::Done(v) => v,
         SimResult::Hang => fail!("c12:hang", "history never completed: some operation neither received its response nor timed out"),
     };
@@ -301,6 +318,9 @@ pub fn check(case: &Case, obs: &mut Obs) -> Result<(), Fail> {
     for (id, got) in &reuse {
         ensure!(id == got, "c12:id-not-reusable", "timed-out id {} is not handed out again (allocator returned {})", id, got);
     }
+    for (id, used, outcome) in &reuse_ops {
+        ensure!(id == used && outcome == "ok", "c12:reused-id-does-not-work", "an operation that was handed the timed-out id {} again (it travelled under {}) ended with {:?}", id, used, outcome);
+    }
     // overlap: a timed-out op while another op was outstanding that later completed
     let spans: Vec<(u64, u64, bool)> = case.ops.iter().zip(&observed).map(|(op, o)| { let o = o.as_ref().unwrap(); (op.start_ms, op.start_ms + o.t_end_ms, o.end == "Timeout") }).collect();
     for (i, a) in spans.iter().enumerate() {
@@ -329,7 +349,7 @@ pub fn property() -> Property {
     Property {
         id: "C12",
         level: "exploration",
-        rule: "generated histories of 1-8 concurrent operations on cloned handles over the paused virtual clock: single-result operations and direct/EntriesOnly searches, each optionally timed (3 ms .. 1 day), started at generated instants; scripted response arrival clearly before the deadline (<= T-2 ms), clearly after it (late reply, >= T+2 ms) or never; searches with per-item gaps below or above the timeout. Oracle (exact to Tokio's 1 ms timer granularity): a timed operation returns Timeout at start+T if nothing arrived, else its own response at the arrival instant; a search's deadline restarts at every next() call, so it times out at the first gap > T and not otherwise however long the whole search takes; every other operation completes with its own tokens; late replies are seen by nobody; the driver survives; at quiescence no id is reserved and each timed-out id is handed out again by the allocator. Non-trivial: an operation times out while another is outstanding and later completes, or a late reply is scripted. Distinct = debug rendering of the operations.",
+        rule: "generated histories of 1-8 concurrent operations on cloned handles over the paused virtual clock: single-result operations and direct/EntriesOnly searches, each optionally timed (3 ms .. 1 day), started at generated instants; scripted response arrival clearly before the deadline (<= T-2 ms), clearly after it (late reply, >= T+2 ms) or never; searches with per-item gaps below or above the timeout. Oracle (exact to Tokio's 1 ms timer granularity): a timed operation returns Timeout at start+T if nothing arrived, else its own response at the arrival instant; a search's deadline restarts at every next() call, so it times out at the first gap > T and not otherwise however long the whole search takes; every other operation completes with its own tokens; late replies are seen by nobody; the driver survives; at quiescence no id is reserved and each timed-out id is handed out again by the allocator and works for the operation that gets it. Non-trivial: an operation times out while another is outstanding and later completes, or a late reply is scripted. Distinct = debug rendering of the operations.",
         assumptions: &["no ties: |arrival - deadline| >= 2 ms", "tokio paused clock: virtual time advances only when every task is idle"],
         lanes: vec![Box::new(PLane { name: "timeouts", cases: |t| t.pick(2_000, 30_000), strat, check })],
         workers: (8, 16),
